@@ -635,29 +635,30 @@ def main():
         while time.time() < deadline:
             i = counter[0]; counter[0] += 1
             name, faults = jobs[i % len(jobs)]
-            evs.append(((name, faults), run_chunk(binary, name, faults, base0 + i * chunk, chunk, outdir, deny, 1 if i < 4 else 0)))
+            extra = ['--deep'] if (tier == 'thorough' and prop != 'C20' and i % 2 == 1) else []
+            evs.append(((name, faults, bool(extra)), run_chunk(binary, name, faults, base0 + i * chunk, chunk, outdir, deny + extra, 1 if i < 4 else 0)))
         return evs
 
     with ThreadPoolExecutor(NCPU) as ex:
         allevs = [e for part in ex.map(worker, range(NCPU)) for e in part]
 
-    for (name, faults), evs in allevs:
+    for (name, faults, deep), evs in allevs:
         for e in evs:
             if e[0] == 'R':
-                res.runs += 1; res.ops += e[5]
+                res.runs += 1; res.ops += e[5]; res.deep_runs = getattr(res, 'deep_runs', 0) + (1 if deep else 0)
                 if bit >= 0 and (e[4] >> bit) & 1:
                     res.nontrivial += 1; res.fps.add(e[3])
             elif e[0] == 'V':
-                rec = dict(seed=e[1], props=e[2], oracle=e[3], path=e[4], text=e[5], profile=name, faults=faults)
+                rec = dict(seed=e[1], props=e[2], oracle=e[3], path=e[4], text=e[5], profile=name, faults=faults, deep=deep)
                 (res.viol if prop in e[2].split(',') else res.foreign).append(rec)
             elif e[0] == 'C':
-                rec = dict(seed=e[1], crash=(e[2], e[3], e[4]), stderr=e[5], profile=name, faults=faults)
+                rec = dict(seed=e[1], crash=(e[2], e[3], e[4]), stderr=e[5], profile=name, faults=faults, deep=deep)
                 if prop in crash_props(e[2], e[3], e[4]):
                     res.crashes.append(rec)
                 else:
                     res.foreign.append(dict(seed=e[1], props=','.join(crash_props(e[2], e[3], e[4])), oracle=e[2], text=e[3], profile=name, faults=faults))
             elif e[0] == 'K':
-                res.leaks.append(dict(seed=e[1], bytes=e[2], profile=name, faults=faults))
+                res.leaks.append(dict(seed=e[1], bytes=e[2], profile=name, faults=faults, deep=deep))
             elif e[0] == 'L':
                 res.leaks.append(dict(line=e[1], profile=name, faults=faults))
             elif e[0] == 'S':
@@ -702,12 +703,12 @@ def main():
             # regenerate the plan and confirm the imbalance twice in fresh processes
             vals = []
             for _ in range(2):
-                p = subprocess.run([binary, 'run', '--profile', c['profile'], '--seed-base', str(c['seed'] - 4), '--count', '5', '--faults', str(c['faults']), '--out', outdir] + deny, stdout=subprocess.PIPE, stderr=subprocess.PIPE, text=True)
+                p = subprocess.run([binary, 'run', '--profile', c['profile'], '--seed-base', str(c['seed'] - 4), '--count', '5', '--faults', str(c['faults']), '--out', outdir] + deny + (['--deep'] if c.get('deep') else []), stdout=subprocess.PIPE, stderr=subprocess.PIPE, text=True)
                 vals.append([l for l in p.stdout.splitlines() if l.startswith('K %d ' % c['seed'])])
             if vals[0] and vals[0] == vals[1]:
                 path = os.path.join(final_dir, 'leak-seed-%d-%s.replay' % (c['seed'], c['profile']))
                 os.makedirs(final_dir, exist_ok=True)
-                pl = subprocess.run([binary, 'plan', '--profile', c['profile'], '--seed', str(c['seed']), '--faults', str(c['faults'])] + deny, stdout=subprocess.PIPE, text=True).stdout
+                pl = subprocess.run([binary, 'plan', '--profile', c['profile'], '--seed', str(c['seed']), '--faults', str(c['faults'])] + deny + (['--deep'] if c.get('deep') else []), stdout=subprocess.PIPE, text=True).stdout
                 with open(path, 'w') as f:
                     f.write('# trompeloeil deterministic-simulation replay file v1\nbinary simH\nprofile %s\nproperty C14\noracle allocation_balance\nviolation %d bytes still allocated after the run and teardown\n' % (c['profile'], c['bytes']) + pl)
                 out_lines.append('VIOLATION property=%s replay=%s' % (prop, path)); exit_code = 1; reported += 1
@@ -718,10 +719,7 @@ def main():
         else:
             # crash: regenerate the replay file from the seed
             path = os.path.join(outdir, 'crash-seed-%d-%s.replay' % (c['seed'], c['profile']))
-            pl = subprocess.run([binary, 'plan', '--profile', c['profile'], '--seed', str(c['seed']), '--faults', str(c['faults'])] + deny, stdout=subprocess.PIPE, text=True).stdout
-            dm = (1 if '--no-multi-monitor' in deny else 0) | (2 if '--no-assign-watched' in deny else 0) | (4 if '--no-seq-destroy-live' in deny else 0)
-            if prop != 'C20':
-                pl = re.sub(r'^(cfg \d+ \d+ \d+ \d+ \d+ \d+) \d+$', lambda m: m.group(1) + ' %d' % dm, pl, flags=re.M)
+            pl = subprocess.run([binary, 'plan', '--profile', c['profile'], '--seed', str(c['seed']), '--faults', str(c['faults'])] + deny + (['--deep'] if c.get('deep') else []), stdout=subprocess.PIPE, text=True).stdout
             with open(path, 'w') as f:
                 f.write('# trompeloeil deterministic-simulation replay file v1\nbinary ' + os.path.basename(binary) + '\nprofile %s\nproperty %s\noracle %s\nviolation %s in %s (%s)\n' % (c['profile'], ','.join(crash_props(*c['crash'])), c['crash'][0], c['crash'][0], c['crash'][1], c['crash'][2]) + pl)
             want = dict(kind='crash', crash=c['crash'], prop=prop)
@@ -780,8 +778,6 @@ def main():
                 else:
                     path = os.path.join(outdir, 'crash-seed-%d-%s.replay' % (cc['seed'], cc['profile']))
                     pl = subprocess.run([binary, 'plan', '--profile', cc['profile'], '--seed', str(cc['seed']), '--faults', '1'] + allow_deny, stdout=subprocess.PIPE, text=True).stdout
-                    dm = (1 if '--no-multi-monitor' in allow_deny else 0) | (2 if '--no-assign-watched' in allow_deny else 0) | (4 if '--no-seq-destroy-live' in allow_deny else 0)
-                    pl = re.sub(r'^(cfg \d+ \d+ \d+ \d+ \d+ \d+) \d+$', lambda m: m.group(1) + ' %d' % dm, pl, flags=re.M)
                     with open(path, 'w') as f:
                         f.write('# trompeloeil deterministic-simulation replay file v1\nbinary simH\nprofile %s\n' % cc['profile'] + pl)
                     want = dict(kind='crash', crash=cc['crash'], prop=prop)
@@ -829,6 +825,7 @@ def main():
                     '; distinct = distinct abstracted operation-kind sequences (including nested re-entrant operations) among the non-trivial runs',
             'samples': res.samples or [{'note': 'no sample captured'}],
             'nontrivial_runs': res.nontrivial,
+            'deep_configuration_runs': getattr(res, 'deep_runs', 0),
             'operations_executed': sum(st.get('ops', {}).values()) + st.get('nested_ops', 0),
             'operations_by_kind': st.get('ops', {}),
             'simulated_time': {'unit': 'scheduler decisions / operation steps (the library has no clock; none is invented)', 'steps': res.ops},
